@@ -83,6 +83,11 @@ func (h *fcHarness) viol(cat fcCat, sig, what string) {
 		h.lastWords = true
 		h.b.Inc("histories_ended_by_another_category_after_a_last_query_battery")
 		h.queryBattery(true)
+	} else if h.cat == catHead && !h.lastWords && !h.dead {
+		// likewise for the head: an update the library silently dropped or mis-applied shows in the head it computes next
+		h.lastWords = true
+		h.b.Inc("histories_ended_by_another_category_after_a_last_head_battery")
+		h.headBattery()
 	}
 	h.dead = true
 }
@@ -774,6 +779,30 @@ func (h *fcHarness) doUpdate(nVals int, mkBalances func(int) []common.Gwei, spe 
 		// Between the failed prune and its retry "the nodes that were reported successfully are pruned, the remainder is left for a next call":
 		// every retained node must answer as after the complete prune. Judged when the new anchor is a block node (then no left-over node
 		// shares a root with a retained one, so questions about retained roots cannot legitimately touch a left-over).
+		anchorIsBlock := false
+		if an := h.m.Get(common.NodeRef{Root: fin.Root, Slot: h.m.StartSlot(fin.Epoch)}); an != nil && an.IsBlock() {
+			anchorIsBlock = true
+		}
+		headFrom := common.NodeRef{Root: h.m.Justified.Root, Slot: h.m.StartSlot(h.m.Justified.Epoch)}
+		if h.m.Pin != nil {
+			headFrom = *h.m.Pin
+		}
+		if h.m.Get(headFrom) == nil {
+			anchorIsBlock = false // the node the head is computed from is itself among the nodes to drop: until the retry the library still has it
+		}
+		if len(got) > 0 && h.cat != catQuery && anchorIsBlock {
+			// the head is computed from the justified node downwards: what was left over for the next prune is not below it
+			// (with a gap-slot anchor the blocks built on the finalized root hang below its not yet removed block node until the retry)
+			if h.cat == catUpdate {
+				h.crossCat = "between-failed-prune-and-retry/"
+			}
+			h.headBattery()
+			h.crossCat = ""
+			b.Inc("head_batteries_between_a_failed_prune_and_its_retry")
+			if h.dead {
+				return
+			}
+		}
 		if an := h.m.Get(common.NodeRef{Root: fin.Root, Slot: h.m.StartSlot(fin.Epoch)}); an != nil && an.IsBlock() && len(got) > 0 && h.cat != catHead {
 			h.retainedOnly = true
 			if h.cat == catUpdate {
